@@ -6,7 +6,7 @@ CHECKS["C03"] = dict(
     technique="stateful model-based property testing (rapid) of cesium/internal/domain against an interval-set model, invariant evaluated after every operation",
     level_text=("Generated histories of open-writer/write/commit(end)/close/delete/reopen over up to 4 simultaneously open writers on one domain.DB; after every step the stored domains are enumerated and read completely: "
                 "ordered, pairwise non-overlapping, fully readable from their files and (modulo merging of adjacent domains) byte-identical to the model; an open inside committed data and a commit that overlaps or moves backwards must fail with a validation error and change nothing. Sampled."),
-    level_note="Trusted: the interval model and the offset resolvers the harness passes to domain.Delete (they count the model's samples below a timestamp). Operations the model considers legal but the engine refuses are counted, not reported. Preset ends are combined with the default file size only.",
+    level_note="Added later: TestC03Loose asserts the structural clauses alone (ordered, non-overlapping, not inverted, readable, failed operations change nothing, no open inside stored data) with preset ends on 8-64 byte files, deletes beside open writers and commits or whole new domains landing inside Delete's end-offset resolver; TestC03 has a `failwrite` operation (the file system stores 1-7 bytes of a write and reports an error). Trusted: the interval model and the offset resolvers the harness passes to domain.Delete (they count the model's samples below a timestamp). Operations the model considers legal but the engine refuses are counted, not reported. Preset ends are combined with the default file size only.",
     rule=("3-45 ops; starts/ends/delete bounds drawn on, next to and inside existing domains; commit ends drawn from {valid, zero-length, backwards, exactly next domain start, inside next domain, around preset end, arbitrary}; file size in {default, 24, 40, 64 B}. "
           "Non-trivial = history ending with >=3 committed domains that contains a rejected conflicting operation followed by an accepted commit; distinct by script hash. TestC03Intervals: OverlapsWith/ContainsStamp vs the half-open definition on valid non-empty ranges."),
     assumptions=["time-range deletes are issued only while no writer is open on the channel (the unary layer serialises them through the control gate)"],
